@@ -536,8 +536,21 @@ def mon_shutdown(case):
     regs = {}
     shutdown_events = {}
     termed = set()
+    announced = {}     # extension -> deadline (ms) announced in its SHUTDOWN event
     for i, (ws, obs, side) in enumerate(case["steps"]):
         es = entries(obs)
+        for x in side:
+            m = re.match(r"deadline ext (\S+) shutdown (\d+)", x)
+            if m:
+                announced[m.group(1)] = int(m.group(2))
+            m = re.match(r"sup exec:extension-(.*)-\d+ @", x)
+            if m:
+                announced.pop(m.group(1), None)
+            m = re.match(r"sup kill:extension-(.*)-\d+ @(\d+)", x)
+            if m and m.group(1) in announced:
+                late = int(m.group(2)) - announced.pop(m.group(1))
+                if late > 450:
+                    out.append(f"step {i+1}: extension {m.group(1)} was still alive at the deadline announced in its SHUTDOWN event and was killed only {late} ms after it")
         if ws[0] in ("ext", "int") and len(ws) > 3 and ws[2] == "register":
             if any(e.startswith(ws[1] + ".register=200") for e in es):
                 regs[ws[1]] = (ws[0], ws[3])
@@ -601,6 +614,7 @@ def mon_events(case):
     out = []
     starts = reports = 0
     inv_start, inv_done_ok = {}, 0
+    open_inv = None          # the invocation that has started and has had no runtime-done yet
     rt_asked = False
     responded = False
     asked_after = False
@@ -632,6 +646,24 @@ def mon_events(case):
                 out.append(f"step {i+1}: init-runtime-done reports success although the runtime never reached its next poll")
             if e.startswith("ev invokeRuntimeDone:success") and not (responded and asked_after):
                 out.append(f"step {i+1}: invoke runtime-done reports success although the runtime had not posted its response and returned to next")
+        # which invocation each runtime-done is attributed to (the current request id of the events API):
+        # it must be the invocation that is open — started, no runtime-done yet. A reset "for timeout/failure"
+        # of an emulator with no open invocation is the client's fiction and says nothing.
+        for e in es:
+            m = re.match(r"ev invokeStart:(id#\d+)", e)
+            if m:
+                open_inv = m.group(1)
+        for x in side:
+            m = re.match(r"evreq invokeRuntimeDone (\S+)", x)
+            if m:
+                rid = m.group(1)
+                if open_inv is None:
+                    if ws[0] != "reset":
+                        out.append(f"step {i+1}: a runtime-done went out under request {rid} although no invocation was open (a second runtime-done, or one without a start)")
+                    continue
+                if rid != open_inv:
+                    out.append(f"step {i+1}: a runtime-done went out under request {rid}, but the invocation it ends is {open_inv}")
+                open_inv = None
         if reports > starts:
             out.append(f"step {i+1}: more init-report than init-start events")
     return out
